@@ -47,7 +47,8 @@ where
             func,
             call_count,
             current_index: 0,
-            done: false,
+            // Nothing to wait for if no call expects a reply (e.g. a chain of oneway calls only).
+            done: call_count == 0,
             _phantom: core::marker::PhantomData,
         }
     }
